@@ -94,3 +94,18 @@ def iban_prefixes(base: str):
 def iban_checkpairs(base: str):
     for d in range(100):
         yield ("check-pair", base[:2] + f"{d:02d}" + base[4:])
+
+
+WS_KINDS = [" ", "\t", "\n", "\r\n", "\u00a0"]
+
+
+def ws_padding(text: str, maxlen: int = 90):
+    """White-space only variants reaching every raw length up to ``maxlen``: trailing, leading and
+    inner runs, and every gap widened at once."""
+    for k in range(1, maxlen + 1 - len(text)):
+        yield ("ws-trailing", text + " " * k)
+        yield ("ws-leading", " " * k + text)
+        yield ("ws-inner", text[:4] + "\t" * k + text[4:])
+    for w in WS_KINDS:
+        for rep in (1, 2, 3):
+            yield ("ws-every-gap", (w * rep).join(text))
